@@ -18,7 +18,6 @@
     https://arxiv.org/abs/2003.13461
 """
 
-from functools import partial
 from typing import Any, Callable, Mapping, Sequence, Tuple
 
 from fedjax.core import client_datasets
@@ -127,7 +126,7 @@ def create_train_for_each_client(grad_fn, client_optimizer):
       client_step_state['state'].interpolation_coefficients)
 
     interpolation_coefficients = jax.tree_util.tree_map(
-      partial(jnp.clip, a_min=0, a_max=1),
+      lambda c: jnp.clip(c, 0, 1),
       interpolation_coefficients)
 
     return {
